@@ -108,19 +108,37 @@ def pollTick (fails : Option Py.Exn) (d : Deep) : Deep :=
   | some .exc => if timerGuarded then d else { d with pollAlive := false }
   | some .base => { d with pollAlive := false }
 
+/-- the application changes its own trace functions.  It may do so whenever the agent's function is not
+    installed (before a start, after a shutdown, any time under NO_TRACE); a change while the agent traces is
+    outside the model (assumption of C14) and ignored. -/
+def hostSet (s t : Hook) (d : Deep) : Deep :=
+  if d.w.tracing then d else { d with w := { d.w with sysHook := s, thrHook := t } }
+
 inductive Op where
   | start
   | shutdown (f : Faults)
   | newConfig (cfg : List Nat)
   | pollTick (fails : Option Py.Exn)
+  | hostSet (s t : Hook)        -- the application installs other trace functions (while the agent is not tracing)
 
 def step (d : Deep) : Op → Deep
   | .start => start d
   | .shutdown f => (shutdown f d).1
   | .newConfig cfg => { d with w := thNewConfig d.w cfg }
   | .pollTick fl => pollTick fl d
+  | .hostSet s t => hostSet s t d
 
 def run (ops : List Op) (d : Deep) : Deep := ops.foldl step d
+
+/-- what the application itself last installed, along a history: the hooks "present before start" that a
+    shutdown has to put back (ghost state of the specification, not of the agent) -/
+def hostView (d : Deep) (h : Hook × Hook) : Op → Hook × Hook
+  | .hostSet s t => if d.w.tracing then h else (s, t)
+  | _ => h
+
+def runH : List Op → Deep × (Hook × Hook) → Deep × (Hook × Hook)
+  | [], x => x
+  | op :: ops, (d, h) => runH ops (step d op, hostView d h op)
 
 /-- the triggers a trace event is matched against: an event can only cause actions when this is non-empty
     (`trace_call` returns before matching when `len(self._tp_config) == 0`). -/
